@@ -64,6 +64,9 @@ def main(argv):
     elif chk == "rebatch_reorder":
         from .parts import C12_generic
         res = C12_generic._job((d["class"], [(d["cfg"], d["samples"], d["seed"])]))[0]
+    elif chk == "rebatch_sizes":
+        from .parts import C12_generic
+        res = C12_generic._job_sizes((d["class"], [(d["cfg"], d["kind"], d["n"], d["seed"])]))[0]
     elif chk == "inject-and-update":
         from .parts import C19_acc
         c = _case(d["class"])
